@@ -52,7 +52,13 @@ func VF_C12_pipeline_service() {
 	ln := vfBound("c12.len", 3, 4)
 	ctor := "New"
 	svc := input.Service{Constructor: &ctor}
-	switch vfChoice("attr", 9) {
+	switch vfChoice("attr", 10) {
+	case 9:
+		// an explicit scope together with a reference (possibly dangling, possibly to itself)
+		sc := input.Scope(1 + vfChoice("scope", 3))
+		svc.Scope = &sc
+		svc.Args = []any{"@" + vfStr("ref", ln)}
+		svc.Fields = map[string]any{"F": "!tagged " + vfStr("tag", ln)}
 	case 0:
 		svc.Getter = vfOptS("getter", ln+2)
 		if vfBool("must.set") {
